@@ -7,6 +7,7 @@ import (
 	"fmt"
 	"os"
 	"path/filepath"
+	"runtime/debug"
 	"strings"
 	"testing"
 
@@ -47,6 +48,17 @@ func writeFile(dirEnv, kind string, t *testing.T, id string, p any, msg string) 
 	_ = os.WriteFile(filepath.Join(dir, name), out, 0o644)
 }
 
+// safeRun converts a panic on the test goroutine into an oracle failure, so that the failing
+// program is saved like any other failure (rapid would otherwise only print the draws).
+func safeRun[P any](run func(p P, rec *evid.Rec) (Result, error), p P, rec *evid.Rec) (res Result, err error) {
+	defer func() {
+		if r := recover(); r != nil {
+			err = fmt.Errorf("panic in the code under test: %v\n%s", r, debug.Stack())
+		}
+	}()
+	return run(p, rec)
+}
+
 // Replaying reports whether this process is a plain replay run.
 func Replaying() bool { return os.Getenv("VERIF_REPLAY") != "" }
 
@@ -77,7 +89,7 @@ func Run[P any](t *testing.T, id, part, rule string, gen func(*rapid.T) P,
 		if err := json.Unmarshal(f.Program, &p); err != nil {
 			t.Fatalf("replay: decoding program: %v", err)
 		}
-		res, err := run(p, rec)
+		res, err := safeRun(run, p, rec)
 		rec.Case(evid.Hash(p), res.NonTrivial, res.Classes, func() any { return p })
 		if err != nil {
 			fmt.Printf("REPLAY-FAIL property=%s test=%s: %v\n", id, t.Name(), err)
@@ -93,7 +105,7 @@ func Run[P any](t *testing.T, id, part, rule string, gen func(*rapid.T) P,
 		if journalOn {
 			writeFile("VERIF_JOURNAL_DIR", "journal", t, id, p, "process died while executing this case")
 		}
-		res, err := run(p, rec)
+		res, err := safeRun(run, p, rec)
 		rec.Case(evid.Hash(p), res.NonTrivial, res.Classes, func() any { return p })
 		if res.Excluded > 0 {
 			rec.Exclude(res.Excluded)
